@@ -164,8 +164,10 @@ class SLE(Equilibrium, phases='ls'):
         if not mol_solute:
             raise RuntimeError('no solute available')
         nonzero = frozenset(mol.nonzero_keys())
+        self._chemical = None
         if self._nonzero == nonzero:
             index = self._index
+            self._solute_gamma_index = index.index(solute_index)
         else:
             chemicals = self.chemicals
             # Set up indices for both equilibrium and non-equilibrium species
@@ -223,6 +225,7 @@ class SLE(Equilibrium, phases='ls'):
                 self._solid_mol[solute_index] + self._liquid_mol[solute_index]
             )
             self._index = slice(None)
+            self._nonzero = None # Indices of equilibrium species must be set up again
             self._update_solubility(solubility)
             if T_given:
                 thermal_condition.T = T
